@@ -80,6 +80,12 @@ Definition same_shape (r r' : rule) : Prop :=
   | _, _ => False
   end.
 
+(* i reaches k through references that point backwards (a forward or self reference contributes no subtree:
+   the referenced rule is not converted yet) *)
+Inductive reach (C : list rule) : nat -> nat -> Prop :=
+| reach_refl i : reach C i i
+| reach_step i j k r : nth_error C i = Some r -> In j (refs_of drule crule r) -> j < i -> reach C j k -> reach C i k.
+
 End Spec.
 
 Arguments Leaf {drule crule} d out br.
